@@ -24,9 +24,12 @@ def nkey(node):
     return (node.kind, getattr(node, "depth", None), getattr(node, "i", None))
 
 
-def layout_checks(d, spec=None):
+def layout_checks(d, spec=None, structure=None):
+    """ structure: the diagram whose boxes the drawing shows (a diagram with
+    bubbles is drawn as its opened form). """
     from discopy.drawing import diagram2nx
     graph, raw_pos = diagram2nx(d)
+    d = structure if structure is not None else d
     kinds = collections.Counter(n.kind for n in graph.nodes)
     boxes, offsets = d.boxes, d.offsets
     expected = {"input": len(d.dom), "output": len(d.cod), "box": len(boxes),
@@ -46,14 +49,25 @@ def layout_checks(d, spec=None):
     heights = []
     for depth, (bx, off) in enumerate(zip(boxes, offsets)):
         node = ("box", depth, None)
-        for i in range(len(bx.dom)):
+        opening = getattr(bx, "bubble_opening", False)
+        closing = getattr(bx, "bubble_closing", False)
+        nd, nc = len(bx.dom), len(bx.cod)
+        for i in range(nd):
             port = ("dom", depth, i)
             edges.add((scan[off + i], port))
-            edges.add((port, node))
+            # the frame of a bubble is drawn by its two outermost wires only,
+            # the wires going through it join dom and cod ports directly
+            if not (opening or closing) or closing and i in (0, nd - 1):
+                edges.add((port, node))
+            if opening:
+                edges.add((port, ("cod", depth, i + 1)))
         outs = []
-        for i in range(len(bx.cod)):
+        for i in range(nc):
             port = ("cod", depth, i)
-            edges.add((node, port))
+            if not (opening or closing) or opening and i in (0, nc - 1):
+                edges.add((node, port))
+            if closing:
+                edges.add((("dom", depth, i + 1), port))
             outs.append(port)
         heights.append((depth, node, off, list(scan), outs))
         scan = scan[:off] + outs + scan[off + len(bx.dom):]
@@ -109,7 +123,8 @@ def layout_cases(draw, tier):
                              max_width=draw(st.sampled_from([6, 9])),
                              max_dom=4, names=["a", "b"],
                              max_arity=draw(st.sampled_from([3, 5]))))
-    return {"d": spec}
+    return {"d": spec, "bubble": draw(st.one_of(st.none(), st.lists(
+        st.integers(0, 10), min_size=2, max_size=2)))}
 
 
 def check_layout(case):
@@ -118,8 +133,16 @@ def check_layout(case):
     if not len(d) and not len(d.dom):
         return dict(nt=False, labels=["empty"])
     padded = layout_checks(d, spec)
-    return dict(nt=padded and len(spec["layers"]) >= 3,
-                labels=["boxes%d" % min(len(spec["layers"]), 8)],
+    labels = ["boxes%d" % min(len(spec["layers"]), 8)]
+    cut = case.get("bubble")
+    if cut is not None and len(d):
+        # part of the diagram inside a bubble: drawn as the opened bubble
+        i, j = sorted(c % (len(d) + 1) for c in cut)
+        if i < j:
+            b = d[:i] >> d[i:j].bubble() >> d[j:]
+            layout_checks(b, structure=b.open_bubbles())
+            labels.append("bubble")
+    return dict(nt=padded and len(spec["layers"]) >= 3, labels=labels,
                 show=common.show(d, 200))
 
 
